@@ -44,9 +44,9 @@ Fixpoint qdel (k : str) (q : query) : query :=
   | (k', v) :: q' => if str_eqb k' k then qdel k q' else (k', v) :: qdel k q'
   end.
 
-(* url.Values.Set: the only value of k.  (url.Values.Encode orders by key; the order of
-   different keys is not observable by a server, the runner prints queries key-sorted.) *)
-Definition qset (k : str) (v : qval) (q : query) : query := (k, v) :: qdel k q.
+(* setQueryParams for one key: every pair of that key is dropped, the new pair is appended;
+   the other pairs stay in place *)
+Definition qset (k : str) (v : qval) (q : query) : query := qdel k q ++ [(k, v)].
 
 Definition qget_s (k : str) (q : query) : str :=
   match qget k q with Some (VS s) => s | _ => [] end.
